@@ -4,6 +4,7 @@ mod engine;
 mod gag;
 mod hist;
 mod model;
+mod powmodel;
 mod props;
 mod sut;
 
@@ -80,6 +81,8 @@ fn main() {
         "C05" => run_property(props::c05::C05, args),
         "C06" => run_property(props::c06::C06, args),
         "C07" => run_property(props::c07::C07, args),
+        "C11" => run_property(props::c11::C11, args),
+        "C12" => run_property(props::c12::C12, args),
         "C15" => run_property(props::c15::C15, args),
         "C16" => run_property(props::c16::C16, args),
         "C17" => run_property(props::c17::C17, args),
